@@ -307,7 +307,7 @@ func (p *printer) exprList(prev0 token.Pos, list []ast.Expr, depth int, mode exp
 			// Use a column for the key such that consecutive entries
 			// can align if possible.
 			// (needsLinebreak is set if we started a new line before)
-			p.expr(pair.Key)
+			p.expr(beforeColon(pair.Key))
 			p.print(pair.Colon, token.COLON, vtab)
 			p.expr(pair.Value)
 		} else {
@@ -766,6 +766,38 @@ func isBinary(expr ast.Expr) bool {
 	return ok
 }
 
+// endsInQuestion reports whether the text of x ends in a bare `?`: an
+// error-wrap expression without default at its right edge.
+func endsInQuestion(x ast.Expr) bool {
+	for {
+		switch v := x.(type) {
+		case *ast.ErrWrapExpr:
+			if v.Default == nil {
+				return v.Tok == token.QUESTION
+			}
+			x = v.Default
+		case *ast.BinaryExpr:
+			x = v.Y
+		case *ast.UnaryExpr:
+			x = v.X
+		case *ast.StarExpr:
+			x = v.X
+		default:
+			return false
+		}
+	}
+}
+
+// beforeColon returns x as it has to be written in front of a ':'. An
+// expression ending in a bare `?` is parenthesized: `a?` followed by a colon
+// would read as the `?:` operator.
+func beforeColon(x ast.Expr) ast.Expr {
+	if x != nil && endsInQuestion(x) {
+		return &ast.ParenExpr{X: x}
+	}
+	return x
+}
+
 func (p *printer) expr1(expr ast.Expr, prec1, depth int) {
 	p.print(expr.Pos())
 
@@ -787,7 +819,7 @@ func (p *printer) expr1(expr ast.Expr, prec1, depth int) {
 		p.binaryExpr(x, prec1, cutoff(x, depth), depth)
 
 	case *ast.KeyValueExpr:
-		p.expr(x.Key)
+		p.expr(beforeColon(x.Key))
 		p.print(x.Colon, token.COLON, blank)
 		p.expr(x.Value)
 
@@ -910,6 +942,9 @@ func (p *printer) expr1(expr ast.Expr, prec1, depth int) {
 				}
 			}
 			if x != nil {
+				if i < len(indices)-1 {
+					x = beforeColon(x)
+				}
 				p.expr0(x, depth+1)
 			}
 		}
@@ -1062,7 +1097,7 @@ func (p *printer) expr1(expr ast.Expr, prec1, depth int) {
 			p.print(token.LBRACE)
 			if x.Elt != nil {
 				if elt, ok := x.Elt.(*ast.KeyValueExpr); ok {
-					p.expr0(elt.Key, depth+1)
+					p.expr0(beforeColon(elt.Key), depth+1)
 					p.print(elt.Colon, token.COLON, blank)
 					p.expr0(elt.Value, depth+1)
 				} else {
@@ -1122,11 +1157,15 @@ func (p *printer) expr1(expr ast.Expr, prec1, depth int) {
 
 	case *ast.RangeExpr:
 		if x.First != nil {
-			p.expr(x.First)
+			p.expr(beforeColon(x.First))
 		}
 		p.print(token.COLON)
 		if x.Last != nil {
-			p.expr(x.Last)
+			if x.Expr3 != nil {
+				p.expr(beforeColon(x.Last))
+			} else {
+				p.expr(x.Last)
+			}
 		}
 		if x.Expr3 != nil {
 			p.print(token.COLON)
@@ -1507,7 +1546,11 @@ func (p *printer) stmt(stmt ast.Stmt, nextIsRBrace bool) {
 	case *ast.CaseClause:
 		if s.List != nil {
 			p.print(token.CASE, blank)
-			p.exprList(s.Pos(), s.List, 1, 0, s.Colon, false)
+			list := s.List
+			if n := len(list); n > 0 && endsInQuestion(list[n-1]) {
+				list = append(list[:n-1:n-1], beforeColon(list[n-1]))
+			}
+			p.exprList(s.Pos(), list, 1, 0, s.Colon, false)
 		} else {
 			p.print(token.DEFAULT)
 		}
